@@ -83,3 +83,4 @@ def iterate_while_mutating(ctx, modules):
                           f'`for ... in {it}` iterates the live collection while `{src(hit)}` changes it: elements are skipped (or RuntimeError '
                           'for dicts) - e.g. the callback registered after a one-shot callback misses a message', fi)
     ctx.ok(f'iteration scan over {len(modules)} modules', None, f'{n} for loops inspected')
+
